@@ -16,6 +16,30 @@ CLAIMED = {
          "No-false-negative / reset / bit accounting are invariants of the specification; the real filter is shown equal to the specified filter on every recorded call at real sizes, and the specification itself counts false positives of never-added probes at full load (<= 4p + 10).",
          "Trusted: TLC, facade; the rate bound is statistical (seeded pseudo-random hashes); sizing floating point bracketed with 1e-3 slack.", "5/C14"),
 }
+CACHE_NOTE = ("Trusted: TLC; hooks H2-H4 (processors parked and stepped through the loop's own handlers; yield points between, never "
+              "inside, critical sections); snapshot projection H6; virtual clock H1. Exhaustive model checking only for the small "
+              "constants listed in the evidence; behaviours carrying a known-finding signature (D6, D7) are exempt from the affected "
+              "invariants from that point on.")
+def cache_entry(title, text, ref):
+    return ("cache", "TLC exhaustive on Cache.tla (MC_Cache configs) + TLC trace validation (Cache_Trace.tla) of the real cache run under the baton scheduler: " + title,
+            text, CACHE_NOTE, ref)
+CLAIMED.update({
+ "C01": ("policy+cache", "TLC on Policy.tla and Cache.tla + trace validation of LFUPolicy calls and of every cache section (charges, used, max_cost)",
+         "used = sum of charges and used <= max_cost + slack are invariants checked exhaustively on both specifications and evaluated by TLC on every recorded state of the real policy and of the real cache (eviction-heavy, internal-cost, concurrent and async runs).", CACHE_NOTE, "5/C01"),
+ "C02": cache_entry("lookup results and resident values", "Every get/get_mut result of the real cache is compared with the value the specification makes visible for that (index, conflict) key at that point of the schedule; ownership of resident values is an invariant.", "5/C02"),
+ "C03": cache_entry("TTL arithmetic on a virtual clock", "Visibility and remaining TTL of every lookup are compared with the specification's arithmetic at millisecond resolution, with inserts, re-inserts and lookups placed around second boundaries; exhaustive TTL model with ticks at arbitrary instants.", "5/C03"),
+ "C05": cache_entry("expiration buckets and sweeps", "After every section the expiration buckets, resident entries, charges and on_evict records of the implementation must equal the specification's, whose index is exact and whose sweep takes every due bucket.", "5/C05"),
+ "C06": cache_entry("store/policy agreement", "Resident = Charged at every quiescent state is an invariant of the specification (all interleavings of 2 clients with the fine-grained processor) and is evaluated on every quiescent state of the recorded executions.", "5/C06"),
+ "C08": cache_entry("callback conservation", "Callbacks (kind, value id, cost) fired inside each section are compared with the specification's; conservation (resident xor exactly one callback xor dropped by clear) is an invariant evaluated at every quiescent state.", "5/C08"),
+ "C09": cache_entry("conditional writes", "insert_if_present and vetoing validators (asymmetric and symmetric predicates) on resident, absent, colliding, expired-unswept and still-buffered keys; result, value, deadline, buckets and buffer effect compared after every call.", "5/C09"),
+ "C10": cache_entry("wait barrier and termination", "All interleavings of wait with inserts, removes, clear and close for 2 clients are model-checked (no orphaned waiter except under D6); every wait() of the real cache must return exactly when the specification releases its marker, with the specified state.", "5/C10"),
+ "C11": cache_entry("clear", "clear() with 0..N buffered items, the processor and a second client interleaved at every section; store, buckets, charges, estimator and every metrics counter compared after each section.", "5/C11"),
+ "C12": cache_entry("close protocol", "Concurrent closers, operations racing close, stop rendezvous and worker exit are model-checked for 2 clients x 3 calls; results after close, blocking points and both workers' exits of the real cache must follow the specification.", "5/C12"),
+ "C16": cache_entry("charged cost formula", "The charge applied by the policy for every New/Update item must be cost (or Coster value) + size_of::<StoreItem<V>> (read from the implementation) unless ignored; evict/reject records carry it.", "5/C16"),
+ "C17": cache_entry("metrics", "Every counter is compared after every section; the conservation laws are invariants evaluated at quiescent states.", "5/C17"),
+ "C18": ("keyhash+cache", "TLC trace validation of build_key (KeyHash.tla: identity on two's-complement limbs, determinism across borrow forms) + Cache.tla with (index, conflict) keys on colliding pairs",
+         "Every supported integer type over boundary and random values; String/&str forms; histories over pairs of keys forced to share an index, every result and state compared with the specification.", CACHE_NOTE, "5/C18"),
+})
 NOT_YET = "check not built yet (work in progress; see DESIGN.md section 10)"
 
 def main():
@@ -51,6 +75,8 @@ def main():
             {"name": "sketch", "path": "spec/Sketch.tla spec/MC_Sketch.tla spec/Sketch_Trace.tla harness/src/sketch.rs", "serves_properties": ["C13"], "kind_free_text": "TLA+/TLC exhaustive + trace validation"},
             {"name": "bloom", "path": "spec/Bloom.tla spec/BloomSys.tla spec/MC_Bloom.tla spec/Bloom_Trace.tla harness/src/bloom.rs", "serves_properties": ["C14"], "kind_free_text": "TLA+/TLC exhaustive + trace validation"},
             {"name": "policy", "path": "spec/Policy.tla spec/MC_Policy.tla spec/Policy_Trace.tla harness/src/policy.rs", "serves_properties": ["C07", "C01"], "kind_free_text": "TLA+/TLC exhaustive + trace validation"},
+            {"name": "cache", "path": "spec/Cache.tla spec/MC_Cache.tla spec/Cache_Trace.tla harness/src/cache.rs harness/src/sched.rs harness/src/scenario.rs", "serves_properties": ["C01", "C02", "C03", "C05", "C06", "C08", "C09", "C10", "C11", "C12", "C16", "C17", "C18"], "kind_free_text": "TLA+/TLC exhaustive + trace validation under a baton scheduler"},
+            {"name": "keyhash", "path": "spec/KeyHash.tla spec/KeyHash_Trace.tla harness/src/keyhash.rs", "serves_properties": ["C18"], "kind_free_text": "TLA+/TLC trace validation"},
         ],
         "checks": checks,
         "notes": "add_only=false: hook H1 splits the one `use std::time::{Duration, SystemTime, UNIX_EPOCH}` line of src/ttl.rs into cfg'd imports so that the virtual clock can stand in for SystemTime; every other hook line is an addition. Known findings and fixed defects: /verif/known_findings.json.",
